@@ -802,6 +802,23 @@ func (v *FnV) contractCallSig(st *State, call *ast.CallExpr, fc *FuncContract, n
 			st.assume(sGe(na, st.alloc))
 			st.alloc = na
 			for _, p := range modifiedParams(mods) {
+				if strings.HasSuffix(p, "[]") {
+					// modifies xs[]: the elements of the array behind slice parameter xs
+					pv, ok := vars[strings.TrimSuffix(p, "[]")]
+					if !ok {
+						sfail("modifies %s: no such parameter of %s", p, fc.FullName())
+					}
+					slt, ok := pv.T.Underlying().(*types.Slice)
+					if !ok {
+						sfail("modifies %s: not a slice", p)
+					}
+					et := v.substT(slt.Elem())
+					name, h := v.elemHeap(st, et)
+					na := v.c.freshName("modarr")
+					st.declare(na, "(Array Int "+v.c.sortOf(et)+")")
+					st.setHeap(name, sStore(h, sx("sref", pv.S), na))
+					continue
+				}
 				pv, ok := vars[p]
 				if !ok {
 					sfail("modifies *%s: no such parameter of %s", p, fc.FullName())
